@@ -85,6 +85,13 @@ def make_trace(tid, rng, nops=25, **opt):
         else:
             st.append(rng.choice([0, 1, 2, 3]))
             pp.append(0)
+    runs = opt.get("many") == "runs"
+    if runs:  # long runs of blocks in each state
+        bs, n = rng.choice([1 << 20, 1 << 20, 2 << 20]), rng.randrange(48, 72)
+        plan = diskprop.run_plan(rng, n, ["D", "Dr", 0, 1, 2, 3])
+        pq, npos = diskprop.run_positions(plan)
+        st = [6 if k in ("D", "Dr") else k for k in plan]
+        pp = [pq[i] if pq[i] is not None else 0 for i in range(n)]
     tail = rng.choice([0, 0, sector, bs // 2, bs - sector])
     size_b = n * bs - tail
     stale = rng.random() < 0.5
@@ -98,7 +105,10 @@ def make_trace(tid, rng, nops=25, **opt):
     s = b.open()
     fresh = b.open()
     rec = record.Recorder(s, size_b, probe=fresh.readoffset, align=opt.get("align"))
-    record.random_ops(rec, rng, size_b, nops, unit=bs, big=min(3 * bs + 4096, 6 << 20), sectors_fn=s.read_sectors, ssize=sector)
+    if runs:
+        diskprop.whole_disk_ops(rec, rng, size_b, bs, sectors_fn=s.read_sectors, ssize=sector)
+        nops = 6
+    record.random_ops(rec, rng, size_b, nops, unit=bs, big=(size_b + 4096) if runs else min(3 * bs + 4096, 6 << 20), sectors_fn=s.read_sectors, ssize=sector)
     return {"tid": tid, "fmt": "vhdx", "img": {"n": n, "cb": 1, "st": st, "p": pp, "bm": [[] for _ in range(n)], "size": n, "parent": False},
             "sizeB": size_b, "sector": sector, "geo": b.geo(), "events": rec.events}
 
